@@ -4,6 +4,8 @@ package main
 
 import (
 	"fmt"
+	"math/big"
+	"time"
 	"go/token"
 	"go/types"
 	"strings"
@@ -387,7 +389,31 @@ func (e *Engine) registerStdlib() {
 		rel := Sub(tv(c.args[0]), zeroTimeNs)
 		return c.ret(TimeV{Add(zeroTimeNs, Mul(DivFloor(rel, I(d)), I(d)))})
 	})
-	r("(time.Time).Format", func(c *CallCtx) []Outcome { return c.ret(c.e.opaqueString(c.st, "timefmt")) })
+	r("(time.Time).Format", func(c *CallCtx) []Outcome {
+		// the formatted text is opaque, but remembers the instant so that time.Parse of the very
+		// same string returns it (round trip of RFC3339Nano is trusted)
+		s := c.e.opaqueString(c.st, "timefmt")
+		c.st.ghost[strKey("timefmt", s)] = c.args[0]
+		return c.ret(s)
+	})
+	r("time.Parse", func(c *CallCtx) []Outcome {
+		s := c.args[1].(*Str)
+		if v, ok := c.st.ghost[strKey("timefmt", s)]; ok {
+			return c.ret(TupleV{v, IfaceV{}})
+		}
+		if cs, ok := s.Const(); ok {
+			layout, _ := c.args[0].(*Str).Const()
+			t, err := time.Parse(layout, cs)
+			if err != nil {
+				return c.ret(TupleV{TimeV{zeroTimeNs}, c.e.newError(c.st, "time.Parse")})
+			}
+			ns := new(big.Int).Mul(big.NewInt(t.Unix()), big.NewInt(1000000000))
+			ns.Add(ns, big.NewInt(int64(t.Nanosecond())))
+			return c.ret(TupleV{TimeV{IBig(ns)}, IfaceV{}})
+		}
+		unm("time.Parse on a symbolic string")
+		return nil
+	})
 	r("(time.Time).String", func(c *CallCtx) []Outcome { return c.ret(c.e.opaqueString(c.st, "timefmt")) })
 	r("time.Unix", func(c *CallCtx) []Outcome {
 		return c.ret(TimeV{Add(Mul(c.args[0].(*Term), I(1e9)), c.args[1].(*Term))})
